@@ -1,15 +1,180 @@
 import MuscleModel.Engines.Common
+import MuscleModel.Reflector.Handlers
 
-/-! Engine `srv` (C04 C05 C06 C07 C13) — placeholder: no prediction yet (`?`), oracles only. -/
+/-!
+Engine `srv` (C04 C05 C06 C07 C13): interprets the op lines of `harness/srv.cpp` on the reflector model
+and prints the same canonical digests.  Ops outside the modelled command subset (quiet flags, `cut`,
+`block`, `raw`, `jettison`, explicit `get`, SETDATA flags other than ADDTOINDEX) make the rest of the
+case unpredicted (`?`): those streams are decided by the direct oracles alone.
+-/
 
 namespace Muscle.Eng.SrvEngine
-open Muscle Muscle.Eng
+open Muscle Muscle.Eng Muscle.Reflector
 
-def step (s : Unit) (toks : List String) : Unit × String :=
+inductive Cmd where
+  | set (path : Bytes) (v : Nat) (addToIndex : Bool)
+  | rm (keys : List Bytes)
+  | sub (path : Bytes) (f : Option Filt)
+  | unsub (path : Bytes)
+  | paramSelf | paramMax (n : Nat) | paramRoute (keys : List Bytes)
+  | unparamMax | unparamRoute
+  | getparams
+  | ins (key before : Bytes) (vals : List Nat)
+  | reorder (key before : Bytes)
+  | send (tag : Nat) (keys : List Bytes)
+  | ping (tag : Nat)
+
+structure St where
+  sv : Server := {}
+  slots : List (Nat × Nat) := []          -- slot → session id
+  batch : List (Nat × List Cmd) := []     -- open batches
+  poisoned : Bool := false
+
+def sidOf (st : St) (slot : Nat) : Option Nat := (st.slots.find? (fun (s, _) => s = slot)).map (·.2)
+
+def parseFilter (s : String) : Option (Option Filt) :=
+  if s = "-" then some none else
+  let ops := ["eq", "lt", "gt", "le", "ge", "ne"]
+  match ops.findIdx? (fun o => s.startsWith o) with
+  | none => none
+  | some i => match (s.drop 2).toNat? with
+    | some v => some (some { op := i, val := v })
+    | none => none
+
+def keyName : Bytes := "!SnKy".toUTF8.toList
+def selfName : Bytes := "!Self".toUTF8.toList
+def maxName : Bytes := "!MxUp".toUTF8.toList
+
+def addParam (s : Sess) (n : Bytes) : Sess := { s with params := if s.params.contains n then s.params else s.params ++ [n] }
+
+/-- one command of session `sid` (inside or outside a batch): `MessageReceivedFromGateway` -/
+def runCmd (sv : Server) (sid : Nat) : Cmd → Server
+  | .set path v ati => setDataNode sv sid path (some v) ati
+  | .rm keys => removeData sv sid keys
+  | .sub path f => subscribe sv sid path f
+  | .unsub path => unsubscribe sv sid path
+  | .paramSelf => sv.updSess sid (fun s => addParam { s with reflectSelf := true } selfName)
+  | .paramMax n => sv.updSess sid (fun s => addParam { s with maxItems := n } maxName)
+  | .paramRoute keys => sv.updSess sid (fun s =>
+      addParam { s with hasRouteKeys := true, route := pmOfKeys (keys.map (fun k => (k, none))) (some defaultPrefix) } keyName)
+  | .unparamMax => sv.updSess sid (fun s =>
+      if s.params.contains maxName then { s with maxItems := sv.maxItemsDefault, params := s.params.filter (· ≠ maxName) } else s)
+  | .unparamRoute => sv.updSess sid (fun s =>
+      if s.params.contains keyName then { s with hasRouteKeys := false, route := [], params := s.params.filter (· ≠ keyName) } else s)
+  | .getparams =>
+    match sv.sess? sid with
+    | none => sv
+    | some s =>
+      let visible := s.params.filter (fun n =>
+        !(n.length > 1 && n.head? = some 33) || n = keyName || n = selfName || n = maxName)
+      let names := (visible.map hexS).mergeSort (fun a b => a ≤ b)
+      sv.deliver sid ("PARAMS" ++ String.join (names.map (" " ++ ·)))
+  | .ins key before vals => insertOrdered sv sid key before vals
+  | .reorder key before => Muscle.Reflector.reorder sv sid key before
+  | .send tag keys => sendMsg sv sid tag keys
+  | .ping tag => sv.deliver sid ("PONG " ++ toString tag)
+
+def treeDigest (sv : Server) : String :=
+  let nodes := descendants fuelDepth sv.root []
+  "T[" ++ String.join (nodes.map (fun (names, n) =>
+    hexS (pathString names) ++ "=" ++ payloadDump n.data ++
+    (if n.index.isEmpty then "" else " ix(" ++ joinWithComma (n.index.map hexS) ++ ")") ++
+    (let subs := n.subs.mergeSort (fun a b => a.1 ≤ b.1)
+     if subs.isEmpty then "" else " s(" ++ joinWithComma (subs.map (fun (k, c) => toString k ++ ":" ++ toString c)) ++ ")") ++
+    "; ")) ++ "]"
+where
+  joinWithComma : List String → String
+    | [] => ""
+    | [x] => x
+    | x :: r => x ++ "," ++ joinWithComma r
+
+def pumpLine (st : St) : St × String :=
+  let slots := st.slots.mergeSort (fun a b => a.1 ≤ b.1)
+  let line := treeDigest st.sv ++ String.join (slots.map (fun (slot, sid) =>
+    " | S" ++ toString slot ++ ":" ++
+      (match st.sv.sess? sid with
+       | some s => String.join (s.inbox.map (" " ++ ·))
+       | none => "")))
+  ({ st with sv := { st.sv with sessions := st.sv.sessions.map (fun s => { s with inbox := [] }) } }, line)
+
+def parseKeys (ts : List String) : Option (List Bytes) := ts.mapM bytesOfTok
+
+def parseCmd : List String → Option Cmd
+  | ["set", _, fl, p, v] => do
+      let f ← nat? fl; let p ← bytesOfTok p; let v ← nat? v
+      if f = 0 then pure (.set p v false) else if f = 8 then pure (.set p v true) else none
+  | "rm" :: _ :: q :: ks => do
+      let q ← nat? q; let ks ← parseKeys ks
+      if q = 0 && !ks.isEmpty then pure (.rm ks) else none
+  | ["sub", _, q, p, f] => do
+      let q ← nat? q; let p ← bytesOfTok p; let f ← parseFilter f
+      if q = 0 then pure (.sub p f) else none
+  | ["unsub", _, p] => do let p ← bytesOfTok p; pure (.unsub p)
+  | ["param", _, "self"] => some .paramSelf
+  | ["param", _, "maxitems", n] => do let n ← nat? n; pure (.paramMax n)
+  | "param" :: _ :: "route" :: ks => do let ks ← parseKeys ks; if ks.isEmpty then none else pure (.paramRoute ks)
+  | ["unparam", _, "maxitems"] => some .unparamMax
+  | ["unparam", _, "route"] => some .unparamRoute
+  | ["getparams", _] => some .getparams
+  | "ins" :: _ :: k :: b :: vs => do
+      let k ← bytesOfTok k; let b ← bytesOfTok b; let vs ← vs.mapM nat?
+      if vs.isEmpty then none else pure (.ins k b vs)
+  | ["reorder", _, k, b] => do let k ← bytesOfTok k; let b ← bytesOfTok b; pure (.reorder k b)
+  | "send" :: _ :: tag :: ks => do let t ← nat? tag; let ks ← parseKeys ks; pure (.send t ks)
+  | ["ping", _, tag] => do let t ← nat? tag; pure (.ping t)
+  | _ => none
+
+def step (st : St) (toks : List String) : St × String :=
   match toks with
-  | ["case", n] => (s, "case " ++ n)
-  | _ => (s, "?")
+  | ["case", n] => ({}, "case " ++ n)
+  | _ =>
+  if st.poisoned then (st, "?") else
+  match toks with
+  | ["pump"] => pumpLine st
+  | ["attach", slot, host] =>
+    match nat? slot, bytesOfTok host with
+    | some sl, some h =>
+      if (sidOf st sl).isSome then (st, "bad-op") else
+      let (sv, sid) := attach st.sv sl h
+      ({ st with sv := sv, slots := st.slots ++ [(sl, sid)] }, "ok " ++ toString sid)
+    | _, _ => (st, "bad-op")
+  | op :: slot :: _ =>
+    match nat? slot with
+    | none => (st, "bad-op")
+    | some sl =>
+      match sidOf st sl with
+      | none => (st, "bad-op")
+      | some sid =>
+        if op = "detach" then
+          ({ st with sv := detach st.sv sid, slots := st.slots.filter (fun (s, _) => s ≠ sl),
+                     batch := st.batch.filter (fun (s, _) => s ≠ sl) }, "ok")
+        else if op = "find" then
+          match toks with
+          | [_, _, p] =>
+            match bytesOfTok p with
+            | some p => (st, "found" ++ String.join ((findNodes st.sv sid p).map (fun v => " " ++ hexS (pathString v))))
+            | none => (st, "bad-op")
+          | _ => (st, "bad-op")
+        else if op = "batch" then
+          match toks with
+          | [_, _, "begin"] => if (st.batch.any (fun (s, _) => s = sl)) then (st, "bad-op") else ({ st with batch := st.batch ++ [(sl, [])] }, "ok")
+          | [_, _, "end"] =>
+            match st.batch.find? (fun (s, _) => s = sl) with
+            | none => (st, "bad-op")
+            | some (_, cmds) =>
+              -- `CallMessageReceivedFromGateway` = handler + `AfterMessageReceivedFromGateway` (push) per sub-Message
+              let sv := cmds.foldl (fun sv c => pushAll (runCmd sv sid c)) st.sv
+              ({ st with sv := pushAll sv, batch := st.batch.filter (fun (s, _) => s ≠ sl) }, "ok")
+          | _ => (st, "bad-op")
+        else
+          match parseCmd toks with
+          | none => ({ st with poisoned := true }, "?")
+          | some c =>
+            if st.batch.any (fun (s, _) => s = sl) then
+              ({ st with batch := st.batch.map (fun (s, cs) => if s = sl then (s, cs ++ [c]) else (s, cs)) }, "ok")
+            else ({ st with sv := pushAll (runCmd st.sv sid c) }, "ok")
+  | _ => (st, "bad-op")
 
-def engine : Engine := { σ := Unit, init := (), step := step }
+def engine : Engine := { σ := St, init := {}, step := step }
 
 end Muscle.Eng.SrvEngine
